@@ -49,6 +49,9 @@ try:
                 alt = [m_.group(1) for l in cmds for m_ in [re.search(r"--no-default-features\s+--features[ =]+(libm|mm)", l)] if m_]
                 if alt and crate == "core" and not any(re.search(r"--features[ =]+std", l) for l in cmds):
                     feats = ["--no-default-features", "-F", alt[0]]
+                elif cmds and crate == "core" and "--features" not in cmds[0] and " -F" not in cmds[0] and "FAILS" in cmds[0]:
+                    # the demonstration is stated for the plain no_std build (first command: no features, marked FAILS)
+                    feats = []
             except OSError:
                 pass
             r = subprocess.run(["cargo", "test", "--offline", "-q", "-p", "retrofire-" + crate, "--test", n] + feats,
